@@ -446,39 +446,14 @@ public:
       setup();
 
       StableSum<R> x;
-      int i = size() - 1;
-      int j = w.size() - 1;
 
-      // both *this and w non-zero vectors?
-      if(i >= 0 && j >= 0)
+      /* the index lists need not be ascending (setValue() and add() append indices in call order): use the indices of
+       * this vector and the values of w, which are zero outside its index set
+       */
+      for(int i = size() - 1; i >= 0; --i)
       {
          int vi = index(i);
-         int wj = w.index(j);
-
-         while(i != 0 && j != 0)
-         {
-            if(vi == wj)
-            {
-               x += VectorBase<R>::val[vi] * R(w.val[wj]);
-               vi = index(--i);
-               wj = w.index(--j);
-            }
-            else if(vi > wj)
-               vi = index(--i);
-            else
-               wj = w.index(--j);
-         }
-
-         /* check remaining indices */
-
-         while(i != 0 && vi != wj)
-            vi = index(--i);
-
-         while(j != 0 && vi != wj)
-            wj = w.index(--j);
-
-         if(vi == wj)
-            x += VectorBase<R>::val[vi] * R(w.val[wj]);
+         x += VectorBase<R>::val[vi] * R(w.val[vi]);
       }
 
       return x;
